@@ -22,6 +22,7 @@ use uuid::Uuid;
 use super::BucketSegmentId;
 use super::segment::{BucketSegmentReader, EventRecord, Record};
 use crate::error::{EventIndexError, ThreadPoolError};
+use crate::id::get_uuid_flag;
 
 // Each record is 16 bytes for the Uuid and 8 bytes for the offset.
 const RECORD_SIZE: usize = mem::size_of::<Uuid>() + mem::size_of::<u64>();
@@ -116,15 +117,38 @@ impl OpenEventIndex {
 
     /// Hydrates the index from a reader.
     pub fn hydrate(&mut self, reader: &mut BucketSegmentReader) -> Result<(), EventIndexError> {
+        // Events of a multi-event transaction only count once its commit record is in the log: a
+        // crash can leave the events of the last transaction without it, and those events were
+        // never acknowledged (readers skip them, so the indexes must too)
+        let mut pending: Vec<(Uuid, u64)> = Vec::new();
+        let mut pending_transaction_id = Uuid::nil();
         let mut reader_iter = reader.iter();
         while let Some(record) = reader_iter.next_record()? {
             match record {
                 Record::Event(EventRecord {
-                    offset, event_id, ..
+                    offset,
+                    event_id,
+                    transaction_id,
+                    ..
                 }) => {
-                    self.insert(event_id, offset);
+                    if get_uuid_flag(&transaction_id) {
+                        self.insert(event_id, offset);
+                    } else {
+                        if transaction_id != pending_transaction_id {
+                            pending.clear();
+                            pending_transaction_id = transaction_id;
+                        }
+                        pending.push((event_id, offset));
+                    }
                 }
-                Record::Commit(_) => {}
+                Record::Commit(commit) => {
+                    if commit.transaction_id == pending_transaction_id {
+                        for &(event_id, offset) in &pending {
+                            self.insert(event_id, offset);
+                        }
+                    }
+                    pending.clear();
+                }
             }
         }
 
